@@ -7,6 +7,7 @@
 -/
 import MxModel.Lemmas.FarmArith
 import MxModel.Lemmas.FarmPos
+import MxModel.Lemmas.FarmPot
 
 namespace Mx.C07
 open Mx Mx.Farm
@@ -107,6 +108,58 @@ theorem positions_wellformed (kind : Kind) (same : Bool) (dsc pb : Nat) (produce
     let s := run (init kind same dsc pb produce users e0) ops
     s.hold u n ≠ 0 → u ∈ s.users ∧ n ≤ s.lastNonce ∧ (s.attrs n).isSome :=
   (reachable_posInv kind same dsc pb produce users e0 hnd ops).dom u n
+
+/-- **merge_no_gain_nary.**  The n-ary form, for the whole payment list of `mergeFarmTokens` / `claim` /
+    `exit` with several payments (`(nonce, amount)` pairs, in the order sent): the merged position has
+    exactly the sum of the paid amounts as principal, and for EVERY future index `R` its un-rounded
+    entitlement is at most the sum of what the paid parts could claim at their own entry indexes —
+    stated with plain list sums over the stored attributes, no ghost. -/
+theorem merge_no_gain_nary {s : St} {pays : List (Nat × Nat)} {m : Attr} (h : mergeAll s pays = some m)
+    (R : Nat) :
+    m.amt = (pays.map (·.2)).sum ∧
+    m.amt * (R - m.rps) ≤
+      (pays.map fun p => p.2 * (R - (match s.attrs p.1 with | some a => a.rps | none => 0))).sum := by
+  have e1 := mergeAll_amt h
+  have e2 := mergeAll_pot R h
+  have s1 : ∀ l : List (Nat × Nat), paySum l = (l.map (·.2)).sum := by
+    intro l; induction l with
+    | nil => rfl
+    | cons p r ih => obtain ⟨n, a⟩ := p; simp only [paySum, List.map_cons, List.sum_cons, ih]
+  have s2 : ∀ l : List (Nat × Nat), payPot s.attrs R l =
+      (l.map fun p => p.2 * (R - (match s.attrs p.1 with | some a => a.rps | none => 0))).sum := by
+    intro l; induction l with
+    | nil => rfl
+    | cons p r ih =>
+      obtain ⟨n, a⟩ := p
+      have e : rpsA s.attrs n = (match s.attrs n with | some a => a.rps | none => 0) := by
+        unfold rpsA; cases s.attrs n <;> rfl
+      simp only [payPot, List.map_cons, List.sum_cons, ih, e]
+  rw [s1] at e1; rw [s2] at e2
+  exact ⟨e1, e2⟩
+
+/-- every payment of a successful n-ary merge names a stored position (so the `none => 0` branch of
+    `merge_no_gain_nary` is never taken) -/
+theorem merge_nary_payments_exist : ∀ (pays : List (Nat × Nat)) {s : St} {base m : Attr},
+    mergeParts s base pays = some m → ∀ p ∈ pays, (s.attrs p.1).isSome := by
+  intro pays
+  induction pays with
+  | nil => intro s base m _ p hp; cases hp
+  | cons q rest ih =>
+    intro s base m h p hp
+    obtain ⟨n, a⟩ := q
+    simp only [mergeParts, Option.bind_eq_bind, Option.bind_eq_some_iff] at h
+    obtain ⟨att, hat, part, _, m1, _, h2⟩ := h
+    rcases List.mem_cons.mp hp with rfl | hp
+    · simp only [hat, Option.isSome_some]
+    · exact ih h2 p hp
+
+/-- non-vacuity: three positions with three different entry indexes merged at once -/
+example :
+    let s := run (init .mint false 7 10 true [1] 0)
+      [.enter 1 none 30 [], .advance 5 0, .enter 1 none 20 [], .advance 9 0, .enter 1 none 11 []]
+    (mergeAll s [(1, 30), (2, 20), (3, 11)]).map (fun m => m.amt) = some 61 ∧
+    (s.attrs 1).map (·.rps) ≠ (s.attrs 2).map (·.rps) ∧ (s.attrs 2).map (·.rps) ≠ (s.attrs 3).map (·.rps) := by
+  decide
 
 /-- non-vacuity of the invariants: a transfer followed by a claim of the receiver moves the total -/
 example :
